@@ -12,11 +12,14 @@ import ticc_util as tu
 from common import frac_str, show_list
 
 
+BIC_THRESHOLD = 2e-5    # cluster_metrics.py; the extracted constant is tied to it by constants_tie_bic (C16)
+
+
 def fr(x):
     return frac_str(Fraction(float(x)))
 
 
-def build_line(cfg, tr, stacked, assign_log):
+def build_line(cfg, tr, stacked, assign_log, fit=False):
     rounds = tr.rounds()
     if not rounds or rounds[0][0]["phase"] != "stats":
         return None
@@ -54,7 +57,12 @@ def build_line(cfg, tr, stacked, assign_log):
             show_list(thetas, lambda t: show_list(t.tolist(), lambda row: show_list(row, fr), ";"), "|"),
             show_list(logdets, fr), show_list(spreads, fr), show_list(order), show_list(picks, lambda l: show_list(l), ";")]))
     nw = float(d * np.log(2 * math.pi))
-    line = (f"replayrun {T} {d} {K} {cfg['m']} {cfg['limit']} 1/2 {fr(nw)} {show_list(betas, fr)} "
+    head = f"replayrun {T} {d} {K} {cfg['m']} {cfg['limit']} 1/2 {fr(nw)} "
+    if fit:
+        # whole-result replay: log T, the BIC counting threshold (from the source) and the estimator flag
+        head = (f"replayfit {T} {d} {K} {cfg['m']} {cfg['limit']} 1/2 {fr(nw)} {fr(np.log(T))} {fr(BIC_THRESHOLD)} "
+                f"{1 if cfg['biased'] else 0} ")
+    line = (head + f"{show_list(betas, fr)} "
             f"{show_list(stacked.tolist(), lambda row: show_list(row, fr), ';')} {show_list(init)} " + "@".join(blocks))
     impl_labels = [[int(x) for x in evs[-1]["out"].point_labels] for evs in rounds]
     return line, impl_labels, betas
@@ -90,3 +98,93 @@ def compare(ctx, cfg, tr, model_out, impl_labels, betas):
         ctx.violation("correspondence-break", f"whole-run model ran {mrounds} rounds, implementation {len(impl_labels)}", cfg)
         return "break"
     return "equal"
+
+
+def _close(a, b, rel=1e-8, scale=0.0):
+    a, b = float(a), float(b)
+    if not (math.isfinite(a) and math.isfinite(b)):
+        return False
+    return abs(a - b) <= rel * (abs(a) + abs(b)) + rel * scale + 1e-300
+
+
+def compare_report(ctx, cfg, res, model_out, impl_final_labels, fields=("cost", "ll", "bic", "ch")):
+    """whole-result replay (Final.report) vs the result object of the real run.
+    returns 'equal' | 'near-tie' | 'break'.  Every model value is the exact rational value of the formula on the
+    same float inputs, so only rounding separates the two sides."""
+    parts = model_out.split(" ")
+    if parts[0] != "ok" or len(parts) != 14:
+        ctx.violation("correspondence-break", f"whole-result model failed ({model_out[:60]}) on a run the implementation completed", cfg)
+        return "break"
+    labels = [int(x) for x in parts[2].split(",")]
+    if labels != impl_final_labels:
+        return "near-tie"      # a different but equally cheap labelling (decided by replayrun's comparison)
+    F = lambda x: float(Fraction(x))
+    L = lambda x: [] if x == "-" else [F(y) for y in x.split(",")]
+    cost, allv, total, mean, median = F(parts[3]), L(parts[4]), F(parts[5]), F(parts[6]), F(parts[7])
+    cmeans, cmeds, params, bic, ch = L(parts[8]), L(parts[9]), int(parts[10]), F(parts[11]), F(parts[12])
+    K = cfg["K"]
+    mag = sum(abs(x) for x in allv) + 1.0
+    bad = []
+    if int(parts[1]) < 1:
+        bad.append("rounds")
+    if "cost" in fields and not _close(res.label_assignment_cost, cost, scale=mag):
+        bad.append(f"label_assignment_cost {float(res.label_assignment_cost)} vs {cost}")
+    got_all = [float(x) for x in res.all_log_likelihood]
+    if "ll" not in fields:
+        pass
+    elif len(got_all) != len(allv) or any(not _close(a, b, scale=mag / max(1, len(allv))) for a, b in zip(got_all, allv)):
+        bad.append("all_log_likelihood")
+    if "ll" in fields and not _close(res.overall_log_likelihood, total, scale=mag):
+        bad.append("overall_log_likelihood")
+    if "ll" in fields and not _close(res.overall_log_likelihood_mean, mean, scale=mag / max(1, len(allv))):
+        bad.append("overall_log_likelihood_mean")
+    if "ll" in fields and not _close(res.overall_log_likelihood_median, median, scale=mag / max(1, len(allv))):
+        bad.append("overall_log_likelihood_median")
+    for name, got, want in (("cluster_log_likelihood_mean", res.cluster_log_likelihood_mean, cmeans),
+                            ("cluster_log_likelihood_median", res.cluster_log_likelihood_median, cmeds)):
+        if "ll" in fields and (len(got) != len(want) or any(not _close(a, b, scale=mag / max(1, len(allv))) for a, b in zip(got, want))):
+            bad.append(name)
+    T = len(labels)
+    if "bic" in fields and not _close(res.bayesian_information_criterion, bic, scale=params * math.log(max(T, 2)) + 1.0):
+        bad.append(f"bayesian_information_criterion {float(res.bayesian_information_criterion)} vs {bic} (params {params})")
+    nonempty = all(labels.count(k) > 0 for k in range(K))
+    if "ch" in fields and K >= 2 and T > K and nonempty and not _close(res.calinski_harabasz_index, ch, rel=1e-7):
+        bad.append(f"calinski_harabasz_index {float(res.calinski_harabasz_index)} vs {ch}")
+    if bad:
+        ctx.violation("correspondence-break", "whole-result model (Final.report) and the returned result disagree on: "
+                      + "; ".join(bad), cfg)
+        return "break"
+    return "equal"
+
+
+def whole_result_section(ctx, cfgs, fields, want):
+    """the complete result of traced real runs must be Final.report of the composed Lean model run on the same data,
+    initial labelling, random draws and ADMM outputs (compared on `fields`)."""
+    import oracles
+    from fast_ticc import data_preparation as dp
+    fit_lines, fit_meta = [], []
+    for cfg in cfgs:
+        if len(fit_lines) >= want:
+            break
+        if cfg.get("force_final") or cfg.get("beta_vector_seed") is not None or cfg.get("synthetic"):
+            continue
+        if not all(k in cfg for k in ("lens", "W", "N", "K", "m", "limit", "biased")):
+            continue
+        npts = sum(l - cfg["W"] + 1 for l in cfg["lens"])
+        if npts * cfg["N"] * cfg["W"] > 1500:
+            continue
+        with tu.record_label_assignments() as assign_log:
+            res, tr, err, series = tu.execute(cfg)
+        if err is not None or tr is None or not tr.kernel_calls:
+            continue
+        stacked = dp.stack_training_data_multiple_series(series, cfg["W"])
+        built = build_line(cfg, tr, stacked, list(assign_log), fit=True)
+        if built is None:
+            ctx.count("whole_result_replay:not-replayable")
+            continue
+        flat, _ = oracles.flat_labels(res.point_labels)
+        fit_lines.append(built[0])
+        fit_meta.append((cfg, res, [x for x in flat if x >= 0]))
+    for (cfg, res, lab), mo in zip(fit_meta, ctx.driver.run(fit_lines)):
+        verdict = compare_report(ctx, cfg, res, mo, lab, fields)
+        ctx.count("whole_result_replay:" + verdict)
